@@ -148,9 +148,11 @@ func (c *Real32) Log1pExp(a ConstScalar) Scalar {
     c.Log1p(c)
   } else
   if v <= 33.3 {
-    c.Neg(a)
-    c.Exp(c)
-    c.Add(c, a)
+    // log(1 + exp(a)) = a + exp(-a) up to rounding; exp(a) <= exp(33.3) does
+    // not overflow and, unlike a + exp(-a), this does not read a after the
+    // receiver (which may be a) has been written
+    c.Exp(a)
+    c.Log1p(c)
   } else {
     c.Set(a)
   }
